@@ -26,6 +26,7 @@ RULE = (
     "the example script), with and without split-write injection. Every subject has its own input, so a row identifies the "
     "evaluation that produced it. Non-trivial = schedule with at least one context switch between two workers' operations; "
     "distinct = distinct hash of the sequence of (worker, operation, object) -- i.e. distinct interleavings."
+    ' Further families: threads interleaved at source-line level inside the shared evaluator (five evaluator profiles), evaluations that raise inside a history, process histories in fresh interpreters and on a simulated file system with 2-second modification times, a parent statistic before and after rows are added by forked workers / a second aggregator object / threads.'
 )
 ASSUMPTIONS = [
     "a write() may be split into two raw writes (legal OS behaviour for rows larger than the buffer) -- only used to make missing mutual exclusion observable; never a violation on its own under the locks",
